@@ -17,6 +17,7 @@ import (
 	"net/http/httptest"
 	"os"
 	"path/filepath"
+	"sort"
 	"strings"
 	"testing"
 	"time"
@@ -146,6 +147,16 @@ func scenarioC13(c *hlib.RunCtx) *hlib.Violation {
 	day0 := refcal.DaysFromCivil(2024, 1, 1) + t.Draw(700)
 	ndays := 1 + t.Draw(4)
 	stored := map[string][]*rep{} // date -> reports
+	put := func(name string, js []byte) {
+		w, err := api.Upload.Object(name).NewWriter(ctx)
+		if err != nil {
+			panic(err)
+		}
+		w.Write(append(js, '\n'))
+		w.Close()
+	}
+	var finals [][2]string
+	remerge := map[string]bool{}
 	xs := []float64{0.125, 0.25, 0.375, 0.5, 0.625, 0.75, 0.875, 0.0625}
 	for d := 0; d < ndays; d++ {
 		date := refcal.Date(day0 + d)
@@ -185,20 +196,49 @@ func scenarioC13(c *hlib.RunCtx) *hlib.Violation {
 			}
 			js, _ := json.Marshal(r)
 			name := fmt.Sprintf("%s/%g.json", date, r.X)
-			w, err := api.Upload.Object(name).NewWriter(ctx)
-			if err != nil {
-				panic(err)
+			// The report may have been sent before with more in it (the same week
+			// and X name the same object): the day was merged then, and is merged
+			// again now that the object is smaller.
+			if t.Bool(1, 8) {
+				big := *r
+				bp := *r.Programs[0]
+				bp.Stacks = map[string]int64{"crash/crash\n" + strings.Repeat("example.com/earlier/version.F:+1,+0x10\n", 1+t.Draw(300)): 1}
+				big.Programs = append([]*prog{&bp}, r.Programs[1:]...)
+				bjs, _ := json.Marshal(&big)
+				put(name, bjs)
+				remerge[date] = true
+				s.Probe("object-rewritten-smaller")
 			}
-			w.Write(append(js, '\n'))
-			w.Close()
+			finals = append(finals, [2]string{name, string(js)})
 			stored[date] = append(stored[date], r)
 		}
+	}
+	var redo []string
+	for date := range remerge {
+		redo = append(redo, date)
+	}
+	sort.Strings(redo)
+	for _, date := range redo {
+		// the other reports of the day were there already
+		for _, f := range finals {
+			if strings.HasPrefix(f[0], date+"/") && !exists(filepath.Join(dir, "uploaded", filepath.FromSlash(f[0]))) {
+				put(f[0], []byte(f[1]))
+			}
+		}
+		rec := httptest.NewRecorder()
+		handleMerge(api).ServeHTTP(rec, httptest.NewRequest("GET", "/merge/?date="+date, nil))
+	}
+	for _, f := range finals {
+		put(f[0], []byte(f[1]))
 	}
 	c.Note("nontrivial")
 	// merge every day but (sometimes) one
 	skipDay := -1
 	if ndays > 1 && t.Bool(1, 3) {
 		skipDay = t.Draw(ndays)
+		if remerge[refcal.Date(day0+skipDay)] {
+			skipDay = -1 // that day has a merged object from before
+		}
 	}
 	var sample []string
 	for d := 0; d < ndays && viol == nil; d++ {
@@ -443,3 +483,5 @@ func checkChart(out []byte, ucfg *telemetry.UploadConfig, stored map[string][]*r
 		}
 	}
 }
+
+func exists(p string) bool { _, err := os.Stat(p); return err == nil }
